@@ -145,6 +145,9 @@ func (h *Hub) UnregisterRemoteSKI(ski string) {
 
 	if existingC != nil {
 		existingC.CloseConnection(true, 4500, "User close")
+
+		// the handshake of that connection may have reached hello ok meanwhile, which marks the service as trusted
+		service.SetTrusted(false)
 	}
 }
 
